@@ -373,6 +373,9 @@ class Params:
         self.p_ext = 0.2
         self.py_safe = False         # names usable in generated Python (C12)
         self.consts = True
+        self.name_pool = None        # override of NAME_POOL (small pool => heavy shadowing)
+        self.suffix = 0.4            # probability of a numeric suffix on generated names
+        self.unique = False          # every generated name globally unique (C12 rewrites)
         self.__dict__.update(kw)
 
 
@@ -385,25 +388,35 @@ class Builder:
         self.files: Dict[str, List[Any]] = {}
         self.protos: Dict[str, PD] = {}
         self.pnames: List[str] = []
+        self.all_names: List[str] = []
         self.nfile = 0
 
     # -- names --
     def fresh(self, pool: List[str], taken, enclosing=()) -> str:
         rng = self.rng
-        if enclosing and rng.random() < self.p.shadow:
-            cands = [n for n in enclosing if n not in taken and (pool is NAME_POOL) == n[0].isupper()]
+        if self.p.unique:
+            taken = self.all_names
+        if pool is NAME_POOL and self.p.name_pool:
+            pool = self.p.name_pool
+        if enclosing and rng.random() < self.p.shadow and not self.p.unique:
+            cands = [n for n in enclosing if n not in taken and n[0].isupper() and pool is not FIELD_POOL]
             if cands:
                 return rng.choice(cands)
+        n = None
         for _ in range(50):
-            n = rng.choice(pool)
-            if rng.random() < 0.4:
-                n += str(rng.randrange(10))
-            if n not in taken and n not in sg.RESERVED:
-                return n
-        i = 0
-        while f"{pool[0]}_{i}" in taken:
-            i += 1
-        return f"{pool[0]}_{i}"
+            c = rng.choice(pool)
+            if rng.random() < self.p.suffix:
+                c += str(rng.randrange(10))
+            if c not in taken and c not in sg.RESERVED and c.lower() not in sg.RESERVED:
+                n = c
+                break
+        if n is None:
+            i = 0
+            while f"{pool[0]}_{i}" in taken:
+                i += 1
+            n = f"{pool[0]}_{i}"
+        self.all_names.append(n)
+        return n
 
     # -- scope bookkeeping: stack of PD (proto, msg, ...) innermost last --
     def lookup(self, stack: List[PD], path: List[str]) -> Optional[PD]:
